@@ -11,6 +11,9 @@ round trip, of `Model/Grammar.lean` to formulas.py:
   `str(f)` against `strItems`, `formula(str(f)).structure` against the model's parse of its own
   print, `repr`, named formulas; public table and a private table.
 
+* blank names: formulas whose name attribute is '' (cleared by assignment, Formula(structure, name=''), copies and
+  multiples of those) are unnamed: they print their structure, which parses back;
+
 * histories: formulas with ions kept while every (element, charge) pair of the table (and isotope ions
   at the lowest / highest charge of each element) is printed and parsed back, then checked again;
   a formula whose print equals an earlier parsed string without its blanks ('CaCO3 6H2O' / 'CaCO36H2O').
@@ -568,6 +571,58 @@ def chunk_blank_twins(run: Run, tname, n):
     check_formulas(run, tname, ref, tbl, prefix, items)
 
 
+def chunk_blank_names(run: Run, tname, n):
+    """formulas whose name attribute is blank ('' – an empty name field, or a name cleared again): the library's
+    constructors treat a blank name as no name (`if name:`), so such a formula is unnamed and its print is its
+    structure, which parses back; reached by assignment f.name = '', by Formula(structure, name=''), by
+    formula(f) / n*f of such a formula and by name='' given to formula() / the mixture constructors"""
+    from periodictable.formulas import formula, Formula, mix_by_weight
+    ref, tbl, prefix = tables(tname)
+    rng = run.rng
+    items = []
+    for _ in range(n):
+        try:
+            if rng.random() < 0.7:
+                base = formula(G.struct_objs(gen_struct(rng, ref, maxdepth=2), tbl))
+            else:
+                d = G.gen_compound(rng, ref, maxdepth=2, pb=0.0)
+                base = formula(G.text_of(G.render_compound(d)), table=tbl)
+        except Exception:  # noqa  (forming / parsing the operand is not this stream's business)
+            continue
+        r = rng.randrange(7)
+        src = "blank-name:" + ["cleared", "Formula(name='')", "copy", "mul", "formula(name='')", "mix(name='')", "cleared-copy-named"][r]
+        try:
+            if r == 0:
+                f = formula(base, name=rng.choice(["brine", "x", "my alloy"]))
+                str(f), repr(f)
+                f.name = ''
+            elif r == 1:
+                f = Formula(structure=base.structure, name='')
+            elif r == 2:
+                f = formula(Formula(structure=base.structure, name=''))
+            elif r == 3:
+                g = formula(base, name="stock")
+                g.name = ''
+                f = rng.choice([2, 3, 0.5, 1, 2.5, 10]) * g
+            elif r == 4:
+                f = formula(base, name='')
+            elif r == 5:
+                f = mix_by_weight(formula(base, density=2.0), 1, formula(base, density=3.0), rng.randint(1, 9), name='')
+            else:
+                g = formula(base, name="old")
+                g.name = ''
+                f = formula(g, name="new")       # a real name again: prints the name
+        except (ZeroDivisionError, OverflowError):
+            continue
+        except Exception as e:  # noqa
+            run.violation("a formula with a blank name cannot be formed (%s: %s)" % (type(e).__name__, e),
+                          dict(table=tname, source=src, structure=G.show_struct(exact(G.struct_keys(base.structure))), name=''),
+                          kind="unbuildable")
+            continue
+        items.append((src, f))
+    check_formulas(run, tname, ref, tbl, prefix, items)
+
+
 def chunk_g(run: Run, n_random, boundary):
     g_sweep(run, n_random, boundary)
 
@@ -584,12 +639,14 @@ def run(run: Run) -> int:
         tasks += [(chunk_formulas, ("private", 250, 3, False)) for i in range(2)]
         tasks += [(chunk_ion_history, ("public", 40)), (chunk_ion_history, ("private", 25))]
         tasks += [(chunk_blank_twins, ("public", 150)), (chunk_blank_twins, ("private", 60))]
+        tasks += [(chunk_blank_names, ("public", 150)), (chunk_blank_names, ("private", 50))]
     else:
         tasks = [(chunk_g, (20000, i == 0)) for i in range(8)]
         tasks += [(chunk_formulas, ("public", 2500, 4 + i % 3, i == 0)) for i in range(72)]
         tasks += [(chunk_formulas, ("private", 2000, 3 + i % 2, False)) for i in range(16)]
         tasks += [(chunk_ion_history, ("public", 200)) for i in range(4)] + [(chunk_ion_history, ("private", 100)) for i in range(2)]
         tasks += [(chunk_blank_twins, ("public", 3000)), (chunk_blank_twins, ("private", 1000))]
+        tasks += [(chunk_blank_names, ("public", 3000)), (chunk_blank_names, ("private", 1000))]
     G.run_chunks(run, tasks)
     return run.finish(RULE, assumptions=[
         "pyparsing's combinator semantics are modelled (Model/Grammar.lean), not verified",
@@ -628,6 +685,8 @@ def replay(data) -> int:
         print("structure", G.show_struct(ex))
         try:
             f = formula(G.struct_objs(_to_py(ex), tbl), name=inp.get("name"))
+            if inp.get("name") == "":
+                f.name = ""          # a blank name attribute (formula() itself leaves the name None)
         except Exception as e:  # noqa
             print("  real code: the structure cannot be built on this tree (%s: %s)" % (type(e).__name__, e))
             continue
